@@ -120,15 +120,32 @@ class FunctionCase:
         self.mapping, self.out_sym = m, out
 
     # -- one call ---------------------------------------------------------------------------------
-    def call(self, scales: dict, spellings: dict) -> tuple[str, Any, Any]:
-        """(status, result or exception, call kwargs)"""
+    def call(self, scales: dict, spellings: dict, style: str = "keywords") -> tuple[str, Any, Any]:
+        """(status, result or exception, call kwargs); style: keywords in signature order (default),
+        keywords in reversed order, all positional, first positional and the rest keywords"""
         try:
             kw = args.call_args(self.params, scales, spellings)
         except Exception as ex:
             return "unbuildable", ex, None
         try:
             with time_limit(30):
-                r = self.fn(**kw)
+                if style == "keywords":
+                    r = self.fn(**kw)
+                elif style == "reversed":
+                    r = self.fn(**dict(reversed(list(kw.items()))))
+                elif style == "positional":
+                    names = []
+                    for prm in self.spec["signature"].parameters.values():
+                        if prm.kind not in (prm.POSITIONAL_ONLY, prm.POSITIONAL_OR_KEYWORD) or \
+                                prm.name not in kw:
+                            break
+                        names.append(prm.name)
+                    r = self.fn(*[kw[n] for n in names], **{k: v for k, v in kw.items() if k not in
+                        names})
+                else:
+                    first = next(iter(kw))
+                    rest = dict(reversed([(k, v) for k, v in kw.items() if k != first]))
+                    r = self.fn(kw[first], **rest)
             return "returned", r, kw
         except CaseTimeout:
             return "timeout", None, kw
@@ -412,6 +429,31 @@ def explore_function(fc: FunctionCase, bound: int) -> dict:
                 else:
                     spl[name] = val
             judge(sc, spl, ";".join(f"{a}:{b}:{c}" for a, b, c in combo))
+    # calling convention: the result must not depend on how the arguments are passed
+    if len(drivable) >= 1:
+        for style in ("reversed", "positional", "mixed"):
+            st, rr, kk = fc.call(dict(base_scales), {}, style)
+            res["n"] += 1
+            key = f"{fc.key}|style:{style}"
+            if st != "returned":
+                count("refused-style")
+                if st == "refused":
+                    res["violations"].append((fc.key + "|style", f"accepted with keyword arguments in "
+                        f"signature order but raised {type(rr).__name__} ({short(rr, 100)}) when "
+                        f"called in the '{style}' style", {"module": fc.modname, "function": fc.fname,
+                        "scales": base_scales, "spellings": {}, "style": style}))
+                continue
+            res["keys"].append(key)
+            count("returned")
+            try:
+                same = struct_close(si_struct(rr), base_struct, 1e-12)
+            except Exception:
+                same = True
+            if not same:
+                res["violations"].append((fc.key + "|style", f"result depends on the calling "
+                    f"convention '{style}': {short(si_struct(rr), 80)} vs {short(base_struct, 80)}",
+                    {"module": fc.modname, "function": fc.fname, "scales": base_scales, "spellings":
+                    {}, "style": style}))
     if spellable:
         for s in SPELLINGS:
             judge(dict(base_scales), {p.name: s for p in spellable}, f"all:{s}")
@@ -609,6 +651,15 @@ def replay(case: dict) -> list[str]:
         allow = json.load(f)
     fn = dict(catalogue.functions(mod))[case["function"]]
     fc = FunctionCase(case["module"], mod, case["function"], fn, allow)
+    if case.get("style"):
+        st0, r0, _ = fc.call(case["scales"], {})
+        st1, r1, _ = fc.call(case["scales"], {}, case["style"])
+        if st0 != "returned":
+            return []
+        if st1 != "returned":
+            return [f"raises in the '{case['style']}' calling style"]
+        return [] if struct_close(si_struct(r1), si_struct(r0), 1e-12) else [
+            "result depends on the calling convention"]
     st, r, kw = fc.call(case["scales"], case["spellings"])
     if st != "returned":
         return []
